@@ -70,11 +70,17 @@ func runC01_2(c *Ctx) {
 	mapStore := p.MethodObj("github.com/henrylee2cn/goutil", "Map", "Store")
 	setSeq := p.MethodObj(Root+"/socket", "Header", "SetSeq")
 	write := p.MethodObj(Root, "session", "write")
-	stores := CallsTo(fn, mapStore)
+	var stores []ssa.CallInstruction
+	for _, st := range CallsTo(fn, mapStore) {
+		// a deferred (or go) Store registers the call only when AsyncCall returns: not a registration before the write
+		if _, isCall := st.(*ssa.Call); isCall {
+			stores = append(stores, st)
+		}
+	}
 	sets := CallsTo(fn, setSeq)
 	writes := CallsTo(fn, write)
 	if len(stores) != 1 || len(sets) != 1 || len(writes) == 0 {
-		c.Undec("AsyncCall anchors", p.Pos(fn.Pos()), fmt.Sprintf("expected 1 table Store, 1 SetSeq, >=1 write; found %d/%d/%d", len(stores), len(sets), len(writes)))
+		c.Viol("AsyncCall registers the call before writing", p.Pos(fn.Pos()), fmt.Sprintf("expected exactly one immediate callCmdMap.Store, one SetSeq and a write in AsyncCall; found %d/%d/%d: the call is not registered under its seq before the frame can be answered", len(stores), len(sets), len(writes)))
 		return
 	}
 	key := stripIface(stores[0].Common().Args[0])
